@@ -595,12 +595,19 @@ def run(ctx: Ctx):
             parts.append(bytes([0 if rng.random() < 0.9 else rng.randrange(256)]) +
                          struct.pack("<I", max(ln, 0))[:3] + body)
         small.append(b"".join(parts))
+    # the un-framer is a private generator of the chunk class: when a refactoring renamed or replaced it, only what is
+    # reachable through public entry points (is_iwa_file, to_buffer, IWAFile.from_buffer below) is compared
+    unframe = getattr(IW.IWACompressedChunk, "_decompress_all", None)
+    if unframe is None:
+        ctx.notes.append("IWACompressedChunk._decompress_all is not available (renamed / replaced): the un-framing stream is "
+                         "skipped; framing is still checked through to_buffer, is_iwa_file and IWAFile.from_buffer")
     for d in small:
-        rec = Recorder()
-        with rec.active():
-            o = _call(lambda: b"".join(IW.IWACompressedChunk._decompress_all(d)), enc_bytes)  # noqa: B023
-        req.append(f"iwa decompress {enc_bytes(d)} " + rec.tables())
-        out.append(o)
+        if unframe is not None:
+            rec = Recorder()
+            with rec.active():
+                o = _call(lambda: b"".join(unframe(d)), enc_bytes)  # noqa: B023
+            req.append(f"iwa decompress {enc_bytes(d)} " + rec.tables())
+            out.append(o)
         req.append(f"iwa isiwa {enc_bytes(d)}")
         out.append(_call(lambda: IW.is_iwa_file(d), lambda b: str(int(b))))  # noqa: B023
     ctx.correspond("_decompress_all / is_iwa_file: all strings of length <= 5 over {00,01,02,05,ff}, framed edge cases, seeded",
@@ -632,7 +639,7 @@ def run(ctx: Ctx):
                 st = check_container_rules(ctx, buf, f"to_buffer of a {n}-byte {kind} stream", inp)
                 if st is not None and st != s:
                     ctx.violation("frame-unframe-stream", f"{n}-byte {kind} stream not reproduced by an independent unframer", inp)
-                back = _call(lambda: b"".join(IW.IWACompressedChunk._decompress_all(buf)), enc_bytes)  # noqa: B023
+                back = _call(lambda: b"".join(unframe(buf)), enc_bytes) if unframe is not None else "ok " + enc_bytes(s)  # noqa: B023
                 if back != "ok " + enc_bytes(s):
                     ctx.violation("unframe-frame", f"_decompress_all(to_buffer(s)) != s for a {n}-byte {kind} stream", inp)
                 if IW.is_iwa_file(buf) is not True:
